@@ -68,6 +68,12 @@ ASSUMPTIONS = [
     "fade-out, if any, is over) Light.get_color() of both must be equal at every sampled instant, exactly (colour is "
     "a pure function of the stack and the virtual time); all shows of a case have distinct priorities (equal "
     "priorities are ordered by the context string, which differs between the twins)",
+    "twin-light family: 88% of the cases have every covering show above every lower show; in the rest one cover "
+    "sits BELOW a lower show. A fade begun by a show ABOVE the cover starts from the colour visible underneath at "
+    "that instant (Light.get_color_below) and keeps that snapshot when the cover is stopped during the fade: on "
+    "/repo the light then differs from its twin until that fade ends. Read literally ('exactly as they would be had "
+    "the show never run') that is a defect; it is a known finding with its own signature, assigned only while such "
+    "a fade is in progress on a case with a cover below (any other difference keeps the general signature)",
 ]
 HORIZONS = {"final_settle_s": 3.0}
 TIERS = {
@@ -182,7 +188,24 @@ def _gen_variant(rng, vid, show, scope, key, force=None):
     return v
 
 
+# directed case (shrunk from a generated one): cover below a show that begins a fade while the cover is visible
+_TWIN_DIRECTED_COVER_BELOW = (
+    {"family": "twin", "lows": [{"steps": [{"ms": 1500, "color": "800080", "fade": None, "form": "str", "dark":
+    False}, {"ms": 3000, "color": "ff8000", "fade": None, "form": "str", "dark": False}, {"ms": 500, "color":
+    "yellow", "fade": 1000, "form": "dict", "dark": False}, {"ms": 3000, "color": "800080", "fade": None, "form":
+    "str", "dark": False}], "prio": 1, "loops": -1, "speed": 2}, {"steps": [{"ms": 500, "color": "ff8000", "fade":
+    200, "form": "dict", "dark": False}, {"ms": 500, "color": "white", "fade": 800, "form": "str", "dark": False},
+    {"ms": 750, "color": "blue", "fade": 800, "form": "str", "dark": False}], "prio": 8, "loops": 0, "speed": 1}],
+    "covers": [{"steps": [{"ms": 3000, "color": "blue", "fade": None, "form": "str", "dark": False}, {"ms": 1000,
+    "color": "800080", "fade": 800, "form": "dict", "dark": False}, {"ms": -1, "color": "white", "fade": None,
+    "form": "str", "dark": False}], "prio": 4, "loops": -1, "speed": 1}, {"steps": [{"ms": -1, "color": "black",
+    "fade": None, "form": "str", "dark": False}], "prio": 60, "loops": -1, "speed": 1}], "ops": [["cover_play",
+    0], ["low_play", 1], ["cover_stop"], ["adv", 1]], "light_fade": 0, "lead_ms": 250})
+
+
 def gen_case(rng, tier, index):
+    if index == TWIN_FROM.get(tier, 1 << 60):
+        return dict(_TWIN_DIRECTED_COVER_BELOW)     # the known finding's minimal history, observed on every run
     if index >= TWIN_FROM.get(tier, 1 << 60):
         return _gen_twin(rng)
     long_run = index % 10 == 9
@@ -303,7 +326,13 @@ def _gen_twin(rng):
     for i in range(nlow):
         lows.append({"steps": _gen_twin_show(rng, rng.choice([2, 3, 3, 4, 5]), 0.65), "prio": prios[i],
                      "loops": rng.choice([-1, -1, -1, 0, 1]), "speed": rng.choice([1, 1, 1, 0.5, 2])})
-    cprios = rng.sample([4, 10, 20, 60], 2)
+    # covering shows are ABOVE every lower show: a show that sits below another show's entry legitimately provides
+    # the start colour of a fade that the upper show begins meanwhile (see ASSUMPTIONS / proposed_fixes/C17_i_NOTES.md)
+    cprios = rng.sample([10, 20, 60, 100], 2)
+    if rng.random() < 0.12:
+        # one cover BELOW a lower show: on /repo a fade that the upper show begins meanwhile keeps the cover's colour
+        # as its start colour after the cover stopped (known finding, own signature; see DESIGN.md section 10)
+        cprios[0] = rng.choice([4, 6, 7])
     covers = [{"steps": _gen_twin_show(rng, rng.choice([1, 1, 2, 3]), 0.3, hold_last=rng.random() < 0.6),
                "prio": cprios[i], "loops": -1, "speed": 1} for i in range(2)]
     ops = [["low_play", 0]]
@@ -406,9 +435,15 @@ def _run_twin(case):
                 obs["twin_samples_while_lower_fade_running"] += 1
             if ca != cb:
                 st["reported"] += 1
+                sig = "C17:light_differs_from_twin_that_never_saw_stopped_show"
+                if min(c["prio"] for c in case["covers"]) < max(lo["prio"] for lo in case["lows"]) and \
+                        (lower_fading(la) or lower_fading(lb)):
+                    # a show ABOVE the stopped cover is in a fade: the mechanism of the known finding
+                    obs["twin_known_start_colour_samples"] = obs.get("twin_known_start_colour_samples", 0) + 1
+                    sig = "C17:fade_started_above_a_later_stopped_show_keeps_its_colour_as_start_colour"
                 if st["reported"] <= 2:
                     viol.append({"clause": "cover_removed_twin",
-                                 "sig": "C17:light_differs_from_twin_that_never_saw_stopped_show",
+                                 "sig": sig,
                                  "detail": {"now": now, "cover_stopped_at": st["last_stop"], "after_op": after,
                                             "light_with_stopped_cover": ca, "twin_without_cover": cb,
                                             "stack_a": [repr(e) for e in la.stack],
